@@ -7,7 +7,7 @@ PROP = {
     "modules": ["Gnmi.Props.C05"],
     "theorems": ["Gnmi.C05." + t for t in [
         "once_static_exact", "walkItems_mem", "once_origin_conflict", "walk_fold", "insertHandle_walk", "pump_drains"]],
-    "components": [su_component("")],
+    "components": [su_component(""), su_component("c08", 150, 1500)],
     "monitor": "spec", "level": "proof",
     "trusted_base": SUB_TB, "assumptions": SUB_ASSUMPTIONS + [
         "a stored notification carries its target's name in the prefix (the cache routes by it); a leaf has one value in an unchanging cache (Functional)",
